@@ -106,7 +106,7 @@ func runC08(c *Ctx) {
 			}
 			all = append(all, cc.Args...)
 			for _, arg := range all {
-				if c.derivesFromField(arg, a.IO) || c.derivesFromField(arg, a.Sock) {
+				if c.derivesFromIO(arg) || c.derivesFromField(arg, a.Sock) {
 					uses = true
 				}
 			}
@@ -236,6 +236,22 @@ func runC08(c *Ctx) {
 				}
 			}
 		}
+		// closures of the method that send (a callback handed to an iterator over the pieces of a message)
+		for _, anon := range fn.AnonFuncs {
+			for _, cs := range CallSites(anon) {
+				if cs.Common().StaticCallee() != a.Raw {
+					continue
+				}
+				direct++
+				r.Sites++
+				ab := fl.At(cs.Common().Args[1], cs.Block())
+				ok, why := ab.startsWithVerb(verb)
+				if ok && (strings.ContainsAny(verb, "\r\n ")) {
+					ok, why = false, "verb contains a separator"
+				}
+				r.Add("R3", "verb:"+fn.Name()+":closure", c.InstrPos(cs), c.FuncKey(fn), "line sent by a closure of "+fn.Name()+" begins with "+verb+" then space or end", ok, why)
+			}
+		}
 		// unexported helpers of *Conn that send: evaluated in the calling context of this method
 		for _, cs := range CallSites(fn) {
 			callee := cs.Common().StaticCallee()
@@ -291,6 +307,10 @@ func runC08(c *Ctx) {
 	for _, cs := range c.Callers(a.Raw) {
 		fn := cs.Parent()
 		if fn.Signature.Recv() != nil && recvNamed(fn) == a.Conn && fn.Object() != nil && fn.Object().Exported() && fn.Parent() == nil {
+			continue
+		}
+		// a closure of an exported command method (its verb was checked with the method)
+		if pf := fn.Parent(); pf != nil && pf.Parent() == nil && pf.Signature.Recv() != nil && recvNamed(pf) == a.Conn && pf.Object() != nil && pf.Object().Exported() {
 			continue
 		}
 		if helperChecked[fn] {
